@@ -2,6 +2,7 @@ package main
 
 import (
 	"flag"
+	"golang.org/x/tools/go/ssa"
 	"fmt"
 	"os"
 	"sort"
@@ -24,6 +25,8 @@ func main() {
 		os.Exit(cmdSelftest(os.Args[2:]))
 	case "list":
 		os.Exit(cmdList(os.Args[2:]))
+	case "modset":
+		os.Exit(cmdModset(os.Args[2:]))
 	default:
 		usage()
 	}
@@ -124,6 +127,50 @@ func cmdList(args []string) int {
 	for _, k := range P.sortedFuncKeys("") {
 		if strings.Contains(k, pat) {
 			fmt.Println(k)
+		}
+	}
+	return 0
+}
+
+func cmdModset(args []string) int {
+	P, err := loadProgram(nil)
+	if err != nil {
+		fmt.Fprintln(os.Stderr, err)
+		return 2
+	}
+	C, _ := loadContracts()
+	ma := getModAnalysis(P, C)
+	for k, fn := range P.Funcs {
+		if len(args) > 0 && strings.HasSuffix(k, args[0]) {
+			ms := ma.modSetOf(fn)
+			fmt.Println(k, "all=", ms.all, ms.why)
+			for _, c := range ms.sorted() {
+				fmt.Println("   ", c)
+			}
+			if len(args) > 1 {
+				// shortest call path to a function that writes component args[1] directly
+				type node struct {
+					f    *ssa.Function
+					path string
+				}
+				seen := map[*ssa.Function]bool{fn: true}
+				queue := []node{{fn, fn.Name()}}
+				for len(queue) > 0 {
+					n := queue[0]
+					queue = queue[1:]
+					d, callees := ma.directOf(n.f)
+					if _, ok := d.comps[args[1]]; ok {
+						fmt.Println("  path:", n.path)
+						break
+					}
+					for _, c := range callees {
+						if !seen[c] {
+							seen[c] = true
+							queue = append(queue, node{c, n.path + " -> " + c.String()})
+						}
+					}
+				}
+			}
 		}
 	}
 	return 0
